@@ -41,6 +41,13 @@ CLAIMED = {
         note="read_lammpslog is not covered (pandas C parser, no numeric input); 'to written precision' is the identity in the "
              "symbolic run and 2e-6 in concrete replays; gsd/mdtraj file parsers are replaced by duck-typed frames.",
         ref="DESIGN.md C19"),
+    "C05": dict(
+        text="Bounded symbolic model checking of Nnearests / cutoffneighbors / cutoffneighbors_particletype writing real files "
+             "and read_neighbors reading them back: all real positions and cut-offs (N=3), every sort order explored as a "
+             "solver-decided path; membership, ordering, no-self, symmetry, file layout and reader padding/truncation.",
+        note="floats modelled as reals; periodic cells are concrete rational (orthogonal and triclinic) with rint as a function "
+             "symbol + lemma instances; coincident particles excluded; N=4 only with two concrete particles (thorough).",
+        ref="DESIGN.md C05"),
 }
 
 NOT_APPLICABLE = {
